@@ -180,3 +180,49 @@ Lemma AG_set_now x t : AG x -> AG (set_now x t).
 Proof. intros A. eapply AG_frame; eauto. Qed.
 
 End Apply.
+
+(* ---------- reflection and lifting ---------- *)
+Lemma AG_iff_agv_load_b x : agv_load_b x = true <-> AG x.
+Proof.
+  unfold agv_load_b, AG. rewrite forallb_forall. split.
+  - intros H t p Hp. unfold tview in Hp. destruct (nth_error (s_trans x) t) as [ts|] eqn:E; [|discriminate].
+    simpl in Hp. inversion Hp; subst p. specialize (H ts (nth_error_In _ _ E)). unfold holds_ok; simpl.
+    destruct (t_st ts); try (destruct (b_store (t_buf ts)); [reflexivity|discriminate]).
+    destruct (b_store (t_buf ts)) as [|j [|j2 r]]; try discriminate. eauto.
+  - intros H ts Hin. apply In_nth_error in Hin. destruct Hin as [t Ht].
+    pose proof (H t _ (tview_of _ _ _ Ht)) as Q. unfold holds_ok in Q; simpl in Q.
+    destruct (t_st ts); try (rewrite Q; reflexivity). destruct Q as [j Q]. rewrite Q. reflexivity.
+Qed.
+
+Section Reach.
+Variable sigma : oracle.
+Variable i : inst.
+
+Theorem apply_agv_load_b x tr x' : agv_load_b x = true -> apply_transition sigma i x tr = Ok x' -> agv_load_b x' = true.
+Proof. intros H Ha. apply AG_iff_agv_load_b. eapply apply_preserves_AG; eauto. apply AG_iff_agv_load_b; auto. Qed.
+
+Theorem reach_agv_load_b fuel x0 joker0 ta r m :
+  agv_load_b x0 = true -> reach sigma i fuel x0 joker0 ta r m -> agv_load_b (r_x r) = true.
+Proof.
+  intros H Hr. apply AG_iff_agv_load_b. apply AG_iff_agv_load_b in H.
+  eapply (reach_P sigma i AG); eauto using apply_preserves_AG, AG_set_now.
+Qed.
+
+Theorem reach_micro_agv_load_b fuel x0 joker0 ta r m a r' m' lg :
+  agv_load_b x0 = true -> reach sigma i fuel x0 joker0 ta r m -> mw_step sigma i fuel r m a = MOk r' m' lg ->
+  forall tr y, In (tr, y) lg -> agv_load_b y = true.
+Proof.
+  intros H Hr Hs tr y Hin. apply AG_iff_agv_load_b. apply AG_iff_agv_load_b in H.
+  eapply (reach_micro_P sigma i AG); eauto using apply_preserves_AG, AG_set_now.
+Qed.
+
+Theorem step_agv_load_b fuel x0 trs tm x' offers lg :
+  agv_load_b x0 = true -> step sigma i fuel x0 trs tm = SOk x' offers lg ->
+  agv_load_b x' = true /\ forall tr y, In (tr, y) lg -> agv_load_b y = true.
+Proof.
+  intros H Hs. apply AG_iff_agv_load_b in H.
+  destruct (step_P sigma i AG (apply_preserves_AG sigma i) AG_set_now _ _ _ _ _ _ _ H Hs) as [A B].
+  split; [apply AG_iff_agv_load_b; auto|]. intros tr y Hin. apply AG_iff_agv_load_b. eapply B; eauto.
+Qed.
+
+End Reach.
